@@ -110,5 +110,29 @@ pub fn rank_table() -> Value {
         "nodes": ranks(NODES, |m| node(m).0),
         "edges": ranks(EDGES, |m| edge(m).0),
         "types": ranks(TYPES, |m| ty(m).0),
+        "scope": scope_ranks(),
     })
+}
+
+/// Rank (1-based byte order) of `scope_hash(rule r, (w, n))` for every rule index 1..=16, warp and node:
+/// key "r|w|n".
+fn scope_ranks() -> Value {
+    let mut v: Vec<([u8; 32], String)> = Vec::new();
+    for r in 1..=crate::programs::MAX_RULES {
+        for w in WARPS {
+            for n in NODES {
+                let h = warp_core::scope_hash(
+                    &crate::programs::rule_id(r),
+                    &warp_core::NodeKey { warp_id: warp(w), local_id: node(n) },
+                );
+                v.push((h, format!("{r}|{w}|{n}")));
+            }
+        }
+    }
+    v.sort();
+    let mut out = serde_json::Map::new();
+    for (i, (_, k)) in v.iter().enumerate() {
+        out.insert(k.clone(), json!(i + 1));
+    }
+    Value::Object(out)
 }
